@@ -288,6 +288,12 @@ func (c *channelInstance) verifyAndDecrypt(m *MessageChunk, r []byte) ([]byte, e
 		b = append(b[:headerLength], p...)
 	}
 
+	// A chunk that is too short to hold a signature behind its headers cannot be
+	// authentic. Reject it instead of slicing out of range.
+	if len(b) < headerLength+c.algo.RemoteSignatureLength() {
+		return nil, ua.StatusBadSecurityChecksFailed
+	}
+
 	signature := b[len(b)-c.algo.RemoteSignatureLength():]
 	messageToVerify := b[:len(b)-c.algo.RemoteSignatureLength()]
 
@@ -304,6 +310,10 @@ func (c *channelInstance) verifyAndDecrypt(m *MessageChunk, r []byte) ([]byte, e
 			paddingLength += 1
 		}
 		paddingLength += 1
+	}
+
+	if len(messageToVerify)-paddingLength < headerLength {
+		return nil, ua.StatusBadSecurityChecksFailed
 	}
 
 	b = messageToVerify[headerLength : len(messageToVerify)-paddingLength]
